@@ -1,5 +1,5 @@
 (* C02 — Only valid successor states can be staged: funds are conserved, no rollback.  Statement file. *)
-From V Require Import Model.Machine Model.MachineSpec Proofs.MachineP Proofs.C02P.
+From V Require Import Model.Machine Model.MachineSpec Proofs.MachineP Proofs.C02P Proofs.PayP.
 
 (* Through the regular update path a candidate is accepted exactly when the machine is in Acting and
    the candidate is a good successor of the current state: channel id, channel app, predecessor not
@@ -58,6 +58,19 @@ Proof.
   exact (conserve_run _ ops2 c (K_run _ ops1 (K_new p idx) R1) R2 Hc).
 Qed.
 Print Assumptions C02_funds_conserved.
+
+(* "satisfies the app's transition rule", spelled out for the payment app (apps/payment): in an accepted
+   successor money flows only from the actor to the others - for every asset the actor's balance does not
+   grow and nobody else's shrinks (with conservation above: what the actor loses is what the others and
+   the locked funds gain) *)
+Theorem C02_payment_only_actor_pays : forall m cur to actor,
+  mp_kind (ps m) = Some KPay -> alloc_valid (st_alloc cur) = true ->
+  num_parts (al_bals (st_alloc cur)) = nparts m -> GoodSuccessor m cur to actor ->
+  forall i fr tr j f t, nth_error (al_bals (st_alloc cur)) i = Some fr ->
+    nth_error (al_bals (st_alloc to)) i = Some tr -> nth_error fr j = Some f -> nth_error tr j = Some t ->
+    if (N.of_nat j =? actor)%N then (t <= f)%Z else (f <= t)%Z.
+Proof. exact payment_only_actor_pays. Qed.
+Print Assumptions C02_payment_only_actor_pays.
 
 Example C02_nonvacuous :
   let m := run (new_machine exP0 0) (exOps0 ++ [OEnableInit; OSetFunded]) in
